@@ -188,6 +188,7 @@ func processFile(filePath string, ctxt *processors.Context, checkOnly bool) erro
 		line, indent, err = processLine(line, indent)
 		if err != nil {
 			logger.Error().Err(err).Msgf("failed to format %s", filename)
+			return err
 		}
 		lines = append(lines, string(line))
 	}
